@@ -244,6 +244,22 @@ func (fr *Frame) execInstr(ins ssa.Instruction, st *State) error {
 		ln := fr.val(t.Len).C[0]
 		cp := fr.val(t.Cap).C[0]
 		fr.implicit(st, "make", sAnd("(<= 0 "+ln+")", "(<= "+ln+" "+cp+")"), t.Pos(), isCallNode, "make "+t.Name())
+		if fr.parent == nil && fr.contract != nil && len(fr.contract.AtMake) > 0 && fr.dry == 0 {
+			// allocation bounds: `atmake` clauses of the function under verification, at each make
+			for _, cl := range fr.contract.AtMake {
+				fr.evalPoint = t.Block()
+				g, sks, err := fr.evalGoal(cl, st, fr.entry, map[string]bound{"makelen": {Value{C: []Term{ln}}, types.Typ[types.Int]}, "makecap": {Value{C: []Term{cp}}, types.Typ[types.Int]}})
+				fr.evalPoint = nil
+				if err != nil {
+					return fmt.Errorf("%s:%d: %v", cl.File, cl.Line, err)
+				}
+				name := fr.srcText(t.Pos(), isCallNode)
+				if name == "" {
+					name = "make " + t.Name()
+				}
+				fr.vc.obligeHinted(st, "atmake", fr.contract.clauseName(cl)+":"+name, g, sks, t.Pos(), cl.Text)
+			}
+		}
 		// a fresh backing array: private until it is handed to code we do not execute
 		a := vc.newAlloc(st, types.NewArray(et, 0), false)
 		// zero contents
